@@ -79,7 +79,7 @@ def parse_formula(src, what):
 def uses_alpha(t):
   if t[0] == "var":
     return t[1] == "Valpha"
-  return any(uses_alpha(x) for x in t[1:] if isinstance(x, tuple))
+  return any(uses_alpha(x) for x in t[1:] if isinstance(x, (tuple, list)))
 
 
 def coq_z(z):
@@ -388,15 +388,44 @@ def render(d):
   return "\n".join(out)
 
 
+REF = os.path.join(ROOT, "harness", "C14_ref_table.json")
+
+
+def load_ref():
+  """The committed reference translation (table + templates of the unchanged repository), written only by
+  `python harness/C14_translate.py --write-ref`.  Used ONLY to keep the search for a failing input going when the
+  current source cannot be translated: the tie is reported broken all the same."""
+  try:
+    import json
+    d = json.load(open(REF))
+    d["from_ref"] = True
+    return d
+  except Exception:
+    return None
+
+
 def translate(write=True):
-  """-> (data or None, [errors])"""
+  """-> (data or None, [errors]).  On a hard failure the data (and Gen_Windows.v) are those of the committed
+  reference, data["from_ref"] is set, and the errors say that the tie is broken."""
   try:
     d = read_source()
     text = render(d)
-  except TranslateError as e:
-    return None, ["C14 translator: " + str(e)]
   except Exception as e:  # fail closed on anything unexpected
-    return None, ["C14 translator crashed: %s: %s" % (type(e).__name__, e)]
+    msg = ("C14 translator: " + str(e)) if isinstance(e, TranslateError) else \
+          "C14 translator crashed: %s: %s" % (type(e).__name__, e)
+    d = load_ref()
+    if d is None:
+      return None, [msg]
+    try:
+      text = render(d)
+    except Exception as e2:
+      return None, [msg, "C14 translator: reference table unusable: %s" % e2]
+    if write:
+      old = open(OUT).read() if os.path.exists(OUT) else None
+      if old != text:
+        with open(OUT, "w") as f:
+          f.write(text)
+    return d, [msg + "  [search continues against the committed reference table]"]
   if write:
     os.makedirs(os.path.dirname(OUT), exist_ok=True)
     old = open(OUT).read() if os.path.exists(OUT) else None
@@ -407,5 +436,14 @@ def translate(write=True):
 
 
 if __name__ == "__main__":
+  import sys
+  if "--write-ref" in sys.argv:
+    import json
+    d = read_source()
+    assert not d["soft_errors"], d["soft_errors"]
+    with open(REF, "w") as f:
+      json.dump(d, f, indent=1, sort_keys=True)
+    print("reference written:", REF)
+    sys.exit(0)
   d, errs = translate()
   print(errs or "ok: %d rows" % len(d["rows"]))
